@@ -26,7 +26,7 @@ CLAIMS = {
    technique="TLA+ model checking (Gossip.tla) + edge replay + TLC trace validation + observer spec on real traces"),
  "C04": dict(
    level=("model_checking", "Gossip.tla action properties C04_Monotonic (lexicographic (gc,max) per copy, key versions) and C04_FreshVersion, invariant C04_NoPanic, on the model and on every real step (replayed edges, validated driver traces; a panic caught in process_message is data).", "6 (C04)"),
-   note="the static (copy, delta) pair enumeration of Agreement.tla is added to this check when that module lands; bounded scopes",
+   note="includes the static pair scope: every (copy, honest-shaped delta) case of Agreement.tla (versions 0..3 quick / 0..5 thorough) replayed on real nodes with C04_Pairs; bounded scopes",
    technique="TLA+ model checking (Gossip.tla) + edge replay + TLC trace validation + observer spec on real traces"),
  "C05": dict(
    level=("model_checking", "Gossip.tla action property C05_OwnUntouched (own key-values/max/gc change only through the local API and own GC; heartbeat +1 only on process/heartbeat) and invariant C05_OwnerAhead, on the model and on every real step.", "6 (C05)"),
@@ -34,8 +34,12 @@ CLAIMS = {
    technique="TLA+ model checking (Gossip.tla) + edge replay + TLC trace validation + observer spec on real traces"),
  "C20": dict(
    level=("model_checking", "Gossip.tla action property C20_Callback: per processed message the callback counter grows by exactly 1 iff some copy's GC watermark strictly increased during that call (observable definition of a reset), else 0; evaluated on the model and on every real step.", "6 (C20)"),
-   note="the C14-scope pair enumeration is added with Agreement.tla; bounded scopes",
+   note="includes every C14-scope pair of Agreement.tla replayed on real nodes with the callback count compared (C20_PairsObs); bounded scopes",
    technique="TLA+ model checking (Gossip.tla) + edge replay + TLC trace validation + observer spec on real traces"),
+ "C14": dict(
+   level=("model_checking", "Agreement.tla enumerates EVERY well-formed (sender copy, receiver copy, truncation point) within the scope as an initial state (quick: versions/watermarks 0..3, 3 sender keys, every status, watermark above max included = 145 680 cases; thorough 0..5) and checks the agreement rule C14_Agreement on each; every case is realised on two real nodes (copies installed with crafted ACKs, delta computed by the real sender under a byte budget admitting exactly b key-values, delivered as an ACK) and compared; differing outcomes are judged by the same formula on the observed values.", "6 (C14)"),
+   note="receiver copies range over one key (receiver key-values at or below its max version cannot influence the outcome); exhaustive within the scope only; trusts the independent codec and TLC",
+   technique="TLA+ exhaustive pair enumeration (Agreement.tla) + replay of every case on two real nodes + observer spec"),
 }
 PENDING = "specification module for this property not built yet in this revision (see DESIGN.md section 10 build order)"
 
